@@ -10,6 +10,16 @@ CLAIMS = {
   "text": "For every operation script of <= 3 (quick) / 5 (thorough) operations from {start, stop, restart, set timeout, read}, every integer timeout (or None) and every pair of monotonic (non-decreasing) and wall-clock (arbitrary) reading sequences, Timer.expired/remaining/timeout equal an elapsed-monotonic-time oracle: 'Confirmed over all paths'. Bounded, not a proof beyond the script length.",
   "note": "Trusted: CrossHair's int/list models, z3. Clocks are integer ticks (float rounding of seconds is outside the claim); pynetdicom.timer.time is replaced by a tick-clock stub.",
  },
+ "C12": {
+  "technique": T + "AE titles (symbolic str), maximum PDU size (symbolic int), context counts / ids, extended-negotiation subsets are solver variables; the bytes sent are judged by an independent PS3.8 structural parser",
+  "text": "For every call of AE.associate()/ACSE.send_request/send_accept inside the bounds (AE titles: any str of <= 2 (quick) / 4 (thorough) characters plus lengths 1/16/17; max PDU any int in +-2^40; 0..3 and 1,2,127,128,129 requested contexts through four API routes; every subset of the 5 extended-negotiation items; A-ASSOCIATE-AC for 1..2(3) proposed contexts with any distinct odd ids) the API either raises or the encoded A-ASSOCIATE-RQ/AC satisfies the structural rules of the statement as checked by spec/ps38_struct.py: 'Confirmed over all paths' for every obligation. Known finding C12-nonconformant-uid (UID legality with ENFORCE_UID_CONFORMANCE=False) is excluded by precondition and reported.",
+  "note": "Trusted: CrossHair models, z3, spec/ps38_struct.py (own transcription of PS3.8 9.3.2/9.3.3 and PS3.5 AE/UI rules). Stubs: socket creation, Association.request, FakeDUL, getaddrinfo table, unicodedata ASCII stand-in, pydicom UIDs from a pool of 9 (pydicom realises strings). Outside: UIDs outside the pool, bytes titles, >2 items of a kind, malformed peer RQ for the AC part.",
+ },
+ "C13": {
+  "technique": T + "the 16-byte AE title fields of the received A-ASSOCIATE-RQ are symbolic bytes, policy settings and identity-handler outcomes are enumerated by the solver's search tree",
+  "text": "The peer's A-ASSOCIATE-RQ is decoded by the real PDU code and the real acceptor branch of Association.run_reactor / ACSE._negotiate_as_acceptor / _check_user_identity runs in the harness thread. For every calling/called title with 2 (quick) / 3 (thorough) arbitrary leading bytes, six required-calling lists, called-title check on/off, 7 identity-handler outcomes x identity types, and the association limit, the association is established iff all enabled checks pass, otherwise exactly one A-ASSOCIATE-RJ with the documented (result, source, reason) is sent and no DIMSE handler runs: 'Confirmed over all paths'.",
+  "note": "Trusted: CrossHair models, z3, the oracle in harness/C13.py (own space-only strip, documented reject codes). Stubs: FakeDUL, scripted DIMSE with one C-ECHO, threading.enumerate list, time.sleep no-op, unicodedata ASCII stand-in. Outside: titles with more symbolic bytes than the bound, other identity payloads, threads of other AEs.",
+ },
 }
 NOT_APPLICABLE = {
  "C25": "The dataset path is pydicom's codec, zlib and file I/O: CrossHair realises every value at those C boundaries, so the solver would quantify over nothing; the pynetdicom-owned part (fragmentation / reassembly, CommandDataSetType consistency) is decided under C15 and C16.",
